@@ -536,6 +536,18 @@ class Hessdiag(Derivative):
         options.pop('n', None)
         super(Hessdiag, self).__init__(f, step=step, method=method, n=2, order=order, **options)
 
+    def _get_functions(self, args, kwds):
+        diff, fun = super(Hessdiag, self)._get_functions(args, kwds)
+
+        def export_fun(x):
+            # fun is scalar valued: accept a value returned as a length-1 array
+            f_x = fun(x)
+            if np.ndim(f_x) == 1 and np.size(f_x) == 1:
+                return f_x[0]
+            return f_x
+
+        return diff, export_fun
+
     def __call__(self, x, *args, **kwds):
         return super(Hessdiag, self).__call__(np.atleast_1d(x), *args, **kwds)
 
